@@ -92,9 +92,18 @@ ValuesOK(c) ==
         /\ ExpectV(c.kind, Member(holder, "v"), c.roundtrip)
         /\ Member(zholder, "z") = Num("1")
 
+\* every output method of Logger, called from a site whose file and line are known (harness/internal/sites): the source
+\* member names the caller - not a frame inside the logger package - as <last directory>/<file> and line
+CallSiteOK(c) ==
+  /\ c.oneline /\ StrictLine(c.toks)
+  /\ LET o == Decode(c.toks)
+     IN /\ o.m[1].k = "time" /\ o.m[2] = [k |-> "level", v |-> S(c.level)]
+        /\ o.m[3].k = "source" /\ Member(o.m[3].v, "file") = S(c.file) /\ Member(o.m[3].v, "line") = Num(c.line)
+        /\ o.m[4] = [k |-> "msg", v |-> S("m")]
+
 StructOK(c) == c.oneline /\ StrictLine(c.toks) /\ Says(c.toks, c.chain, c.site)
 StringsOK(c) == c.oneline /\ c.shape = c.want /\ Faithful(c.in, c.lit)
 
 JudgeOK == LET c == Cases[i] IN
-   (CASE c.mode = "struct" -> StructOK(c) [] c.mode = "values" -> ValuesOK(c) [] OTHER -> StringsOK(c)) \/ PrintT(<<"BAD", i>>)
+   (CASE c.mode = "struct" -> StructOK(c) [] c.mode = "values" -> ValuesOK(c) [] c.mode = "callsite" -> CallSiteOK(c) [] OTHER -> StringsOK(c)) \/ PrintT(<<"BAD", i>>)
 =============================================================================
